@@ -340,13 +340,32 @@ ADDENDA6 = {
     "C14": " Round 6: R14.9 collection wrap tables (the defect of member j reaches the handler as Invalid*(GeometryIndex(j), ..); every member validated; Geometry wraps variant by variant); R14.10 Coord / Point / Line / Rect / Triangle / LineString tables: errors reported = exactly the defining checks that hold, no other decision.",
     "C15": " Round 6: R15.7 witnesses also at scale 1e-9 and 1e6; R15.9 LineString / MultiLineString length tables (shared with C16).",
     "C16": " Round 6: R16.9 LineString::length = sum over all consecutive pairs on every coordinate sequence over three positions (0..5 coordinates) and on a line string of 300 coordinates; MultiLineString::length on 0..3 members.",
-    "C17": " Round 6: R17.4 every candidate pair of the segment index reaches add_intersections with the edges of its own graph (no filter between two graphs; within one graph only the documented same-edge exception); R17.5 no Relate impl overrides relate() (C01 R1.1).",
+    "C17": " Round 6: R17.7 every candidate pair of the segment index reaches add_intersections with the edges of its own graph (no filter between two graphs; within one graph only the documented same-edge exception); R17.8 no Relate impl overrides relate() (C01 R1.1).",
     "C18": " Round 6: R18.8 container tables (From<Vec>, FromIterator, From<member>, new, into_iter, iter of MultiPoint / MultiLineString / MultiPolygon / GeometryCollection / LineString keep every member in order, unchanged). R18.3 is now a table: close() on all 31 coordinate sequences of length 0..4 over two concrete values.",
     "C03": " Round 6: R3.8 Kernel::square_euclidean_distance on mixed-sign witnesses.",
     "C06": " Round 6: R6.7 also holds the container folds of dimensions / boundary_dimensions (C01 R1.6).",
     "C10": " Round 6: R10.11 MonoPoly point location (chains of 2 and 3 coordinates, vertical end edges, every query of a grid): Outside exactly when outside the polygon made of the two chains.",
     "C11": " Round 6: R11.2 / R11.4 also walk every ordered pair of segments among four collinear points (horizontal, vertical, both diagonals).",
     "C19": " Round 6: R19.4 is now the value-level map_coords tables of C13 R13.10 (96 tables) plus the stop-at-first-error rule; R19.10 also holds the container folds of dimensions (C01 R1.6).",
+}
+
+ADDENDA7 = {
+    "C01": " Round 7: R1.17 the orientation kernel rules of C03 (binding, robust body without pre-filter, exact integer kernel beyond 2^53).",
+    "C02": " Round 7: R2.13 = kernel rules of C03.",
+    "C04": " Round 7: R4.8 = kernel rules of C03.",
+    "C05": " Round 7: R5.4 rewritten as value-level tables; R5.11 = kernel rules of C03; R5.12 signed_area of Triangle / Rect / Polygon ring translated by 1e8 within 1e-6 of the exact rational area (found and fixed: Triangle::signed_area).",
+    "C06": " Round 7: R6.8 Rect::center also for extents beyond the largest float; R6.12 = R5.12 (areas are the centroid weights).",
+    "C07": " Round 7: R7.7 the point kernel on witnesses at 2^600 / 2^-600 (value-level); R7.8 point-segment kernels also translated by (1e15, 2e15); R7.14 Line-Line intersects table (C11 R11.4).",
+    "C09": " Round 7: R9.9 includes the far-offset witnesses of R7.8.",
+    "C10": " Round 7: R10.12 = kernel rules of C03.",
+    "C11": " Round 7: R11.8 also on the grid scaled by 2^-27, 2^-40 and 2^20; R11.9 the comparison helpers value_in_between / point_in_rect, also at 2^-600 / 2^600.",
+    "C12": " Round 7: R12.9 = kernel rules of C03; R12.10 = point kernel (R7.7).",
+    "C13": " Round 7: R13.11 = point kernel (R7.7); R13.12 AffineTransform::skew on tiny angles evaluated with the machine epsilon of f64 and of f32.",
+    "C14": " Round 7: R14.11 = kernel rules of C03; R14.12 = relate exactness (C01 R1.5).",
+    "C15": " Round 7: R15.10 = Rhumb wrap and Haversine / Rhumb laws (C16 R16.5 / R16.7).",
+    "C17": " Round 7: R17.6 GeometryCow (what a PreparedGeometry answers HasDimensions with) delegates is_empty / dimensions / boundary_dimensions to the wrapped geometry, variant by variant.",
+    "C18": " Round 7: R18.6 also tabulates Triangle::new (UTM-like offsets, rational reference) and Coord::eq (integers beyond 2^53).",
+    "C19": " Round 7: R19.3 rewritten as drained lines_iter tables; R19.12 Triangle::new table (MapCoords for Triangle rebuilds through it).",
 }
 
 def main():
@@ -364,7 +383,7 @@ def main():
                 "evidence_file": "/verif/evidence/%s.json" % pid,
                 "replay_cmd_template": "./check %s --explain {path}" % pid,
                 "engine": "geofacts+rules",
-                "level_claimed": {"category": c["category"], "text": c["text"] + ADDENDA.get(pid, "") + ADDENDA4.get(pid, "") + ADDENDA5.get(pid, "") + ADDENDA6.get(pid, ""), "design_ref": c["design_ref"]},
+                "level_claimed": {"category": c["category"], "text": c["text"] + ADDENDA.get(pid, "") + ADDENDA4.get(pid, "") + ADDENDA5.get(pid, "") + ADDENDA6.get(pid, "") + ADDENDA7.get(pid, ""), "design_ref": c["design_ref"]},
                 "level_note": c["note"],
                 "technique": c["technique"],
             })
